@@ -122,6 +122,9 @@ type gloc struct {
 	dead  atomic.Bool
 	nops  atomic.Int64
 	ndone atomic.Int64
+	// injected listing fault
+	listFailAt atomic.Int64
+	listFired  atomic.Bool
 }
 
 func (g *gloc) Write(path string, r io.Reader) (string, error) {
@@ -163,7 +166,29 @@ func (g *gloc) Remove(paths ...string) error {
 }
 
 func (g *gloc) Read(path string) ([]byte, error)  { return g.ld.Read(path) }
-func (g *gloc) List() iter.Seq2[string, error]    { return g.ld.List() }
+// List with an injected storage fault: listFailAt = k > 0 makes the listing break off with an error in place of its
+// k-th entry (both real locations end a failed listing with one terminal error)
+func (g *gloc) List() iter.Seq2[string, error] {
+	k := g.listFailAt.Load()
+	if k <= 0 {
+		return g.ld.List()
+	}
+	return func(yield func(string, error) bool) {
+		i := int64(0)
+		for p, err := range g.ld.List() {
+			if i++; i == k {
+				g.listFired.Store(true)
+				yield("", errListFault)
+				return
+			}
+			if !yield(p, err) {
+				return
+			}
+		}
+	}
+}
+
+var errListFault = errors.New("injected storage fault: listing failed (connection reset by peer)")
 func (g *gloc) URI(path string) (string, error)   { return g.ld.URI(path) }
 func (g *gloc) Copy(src string, dst string) error { return g.ld.Copy(src, dst) }
 
@@ -318,6 +343,8 @@ type run struct {
 	s    *gate.Sched
 	inc  *incarnation
 	ninc int
+	bi   int
+	res  *mbt.Result
 
 	listed []uint64 // snapshot ids in the directory as of the last storage operation
 
@@ -611,7 +638,24 @@ func (r *run) startIncarnation() error {
 	}
 	inc.store = newStore(inc.loc, toStore, inc.events, inc.spl)
 	r.inc = inc
-	if err := inc.store.LoadCheckpoint(); err != nil {
+	if r.h.in.CfgBool("ListFaults", false) {
+		// the listing of the restart breaks off at its 1st..4th entry (by behaviour and incarnation); with fewer entries
+		// in storage nothing happens
+		inc.loc.listFailAt.Store(int64((r.bi+r.ninc)%4) + 1)
+	}
+	err := inc.store.LoadCheckpoint()
+	inc.loc.listFailAt.Store(0)
+	if inc.loc.listFired.Load() {
+		r.res.Count("restarts_with_a_failing_listing", 1)
+		if err != nil {
+			// the start-up fails and is tried again (orchestrator): allowed, nothing was resumed
+			r.res.Count("failing_listing_reported_as_error", 1)
+			err = inc.store.LoadCheckpoint()
+		}
+		// else the store started although it could not see all of its storage: what it resumed from is judged as for
+		// every restart (LoadsNewest)
+	}
+	if err != nil {
 		return driftf("LoadCheckpoint: %v", err)
 	}
 	if r.h.dkv {
@@ -1412,7 +1456,7 @@ func (r *run) post(st mbt.Step) error {
 }
 
 func (h *harness) replay(bi int, beh []mbt.Step, res *mbt.Result) {
-	r := &run{h: h, dir: h.newDir()}
+	r := &run{h: h, dir: h.newDir(), bi: bi, res: res}
 	defer os.RemoveAll(r.dir)
 	r.ld = locations.NewLocalDirectory(r.dir)
 	r.s = gate.New("loc.write", "loc.remove", "snapshots.notify", "spl.checkpoint")
